@@ -698,6 +698,362 @@ theorem indexed_to_channels_visible (w hh : Nat) (il : Bool) (p : List Rgba) (da
     (samePicture_visible (C01.indexed_to_channels_lossless _ j ag h))
 
 
+/-! ### the alpha channel replaced by a colour key (alpha optimisation) -/
+
+/-- the first loop of `reduced_alpha_channel` with alpha optimisation on -/
+def alphaScanStep (colored : Nat) (st : Bool × Bool × List UInt8) (px : Bytes) : Bool × Bool × List UInt8 :=
+  if (!st.1) = true then st
+  else if (true && (px.drop colored).all (· = 0)) = true then (true, true, st.2.2)
+  else if ((px.drop colored).any fun x => decide (x ≠ 255)) = true then (false, st.2.1, st.2.2)
+  else if (true && (px.take colored).all (· = px.getD 0 0)) = true then (true, st.2.1, px.getD 0 0 :: st.2.2)
+  else st
+
+/-- what a successful scan establishes -/
+theorem alphaScan_ok (colored : Nat) : ∀ (pxs : List Bytes) (st : Bool × Bool × List UInt8),
+    (pxs.foldl (alphaScanStep colored) st).1 = true →
+    st.1 = true ∧
+    (∀ px ∈ pxs, (px.drop colored).all (· = 0) = true ∨ ((px.drop colored).any fun x => decide (x ≠ 255)) = false) ∧
+    ((pxs.foldl (alphaScanStep colored) st).2.1 = false → st.2.1 = false ∧ ∀ px ∈ pxs, (px.drop colored).all (· = 0) = false) ∧
+    (∀ v ∈ st.2.2, v ∈ (pxs.foldl (alphaScanStep colored) st).2.2) ∧
+    (∀ px ∈ pxs, (px.drop colored).all (· = 0) = false → (px.take colored).all (· = px.getD 0 0) = true →
+      px.getD 0 0 ∈ (pxs.foldl (alphaScanStep colored) st).2.2) := by
+  intro pxs
+  induction pxs with
+  | nil => intro st h; exact ⟨h, by simp, fun h2 => ⟨h2, by simp⟩, fun v hv => hv, by simp⟩
+  | cons px pxs ih =>
+    intro st h
+    simp only [List.foldl_cons] at h ⊢
+    obtain ⟨h1, h2, h3, h4, h5⟩ := ih (alphaScanStep colored st px) h
+    -- the step kept the flag, so it did not fail
+    have hst : st.1 = true := by
+      cases hs : st.1
+      · simp [alphaScanStep, hs] at h1
+      · rfl
+    cases ht : (px.drop colored).all (· = 0)
+    · cases hany : ((px.drop colored).any fun x => decide (x ≠ 255))
+      · cases hg : (px.take colored).all (· = px.getD 0 0)
+        · have hstep : alphaScanStep colored st px = st := by
+            simp only [alphaScanStep, hst, ht, hany, hg, Bool.not_true, Bool.false_eq_true, if_false, if_true, Bool.true_and, Bool.and_false, Bool.and_true]
+          rw [hstep] at h1 h3 h4 h5 ⊢
+          refine ⟨hst, ?_, ?_, h4, ?_⟩
+          · intro q hq
+            rcases List.mem_cons.mp hq with rfl | hq
+            · right; exact hany
+            · exact h2 q hq
+          · intro hf
+            obtain ⟨a, b⟩ := h3 hf
+            exact ⟨a, fun q hq => by rcases List.mem_cons.mp hq with rfl | hq; exact ht; exact b q hq⟩
+          · intro q hq hqt hqg
+            rcases List.mem_cons.mp hq with rfl | hq
+            · rw [hg] at hqg; cases hqg
+            · exact h5 q hq hqt hqg
+        · have hstep : alphaScanStep colored st px = (true, st.2.1, px.getD 0 0 :: st.2.2) := by
+            simp only [alphaScanStep, hst, ht, hany, hg, Bool.not_true, Bool.false_eq_true, if_false, if_true, Bool.true_and, Bool.and_false, Bool.and_true]
+          rw [hstep] at h1 h3 h4 h5 ⊢
+          refine ⟨hst, ?_, ?_, fun v hv => h4 v (List.mem_cons_of_mem _ hv), ?_⟩
+          · intro q hq
+            rcases List.mem_cons.mp hq with rfl | hq
+            · right; exact hany
+            · exact h2 q hq
+          · intro hf
+            obtain ⟨a, b⟩ := h3 hf
+            exact ⟨a, fun q hq => by rcases List.mem_cons.mp hq with rfl | hq; exact ht; exact b q hq⟩
+          · intro q hq hqt hqg
+            rcases List.mem_cons.mp hq with rfl | hq
+            · exact h4 _ List.mem_cons_self
+            · exact h5 q hq hqt hqg
+      · have hstep : alphaScanStep colored st px = (false, st.2.1, st.2.2) := by
+          simp only [alphaScanStep, hst, ht, hany, Bool.not_true, Bool.false_eq_true, if_false, if_true, Bool.true_and, Bool.and_false, Bool.and_true]
+        rw [hstep] at h1
+        cases h1
+    · have hstep : alphaScanStep colored st px = (true, true, st.2.2) := by
+        simp only [alphaScanStep, hst, ht, Bool.not_true, Bool.false_eq_true, if_false, if_true, Bool.true_and, Bool.and_false, Bool.and_true]
+      rw [hstep] at h1 h3 h4 h5 ⊢
+      refine ⟨hst, ?_, ?_, h4, ?_⟩
+      · intro q hq
+        rcases List.mem_cons.mp hq with rfl | hq
+        · left; exact ht
+        · exact h2 q hq
+      · intro hf
+        have := (h3 hf).1
+        cases this
+      · intro q hq hqt hqg
+        rcases List.mem_cons.mp hq with rfl | hq
+        · rw [ht] at hqt; cases hqt
+        · exact h5 q hq hqt hqg
+
+/-- colour type after the alpha channel is replaced by a colour key `t` (one byte, replicated) -/
+def keyedCt (ct : ColorType) (depth : Nat) (t : UInt8) : ColorType :=
+  let t16 := if depth = 16 then t.toNat * 256 + t.toNat else t.toNat
+  match ct with
+  | .grayAlpha => .gray (some t16)
+  | _ => .rgb (some (t16, t16, t16))
+
+/-- what a successful `reduced_alpha_channel` with alpha optimisation did -/
+theorem reducedAlpha_true_char (i j : Img) (h : reducedAlphaChannel i true = some j) :
+    i.ihdr.ct.hasAlpha = true ∧
+    (∀ px ∈ chunksExact i.bppBytes i.data,
+      (px.drop (i.bppBytes - bdOf i.ihdr.depth)).all (· = 0) = true ∨
+      ((px.drop (i.bppBytes - bdOf i.ihdr.depth)).any fun x => decide (x ≠ 255)) = false) ∧
+    ((j = ⟨{ i.ihdr with ct := noAlphaCt i.ihdr.ct },
+          (chunksExact i.bppBytes i.data).flatMap (·.take (i.bppBytes - bdOf i.ihdr.depth))⟩ ∧
+      ∀ px ∈ chunksExact i.bppBytes i.data, (px.drop (i.bppBytes - bdOf i.ihdr.depth)).all (· = 0) = false) ∨
+     (∃ t : UInt8,
+      j = ⟨{ i.ihdr with ct := keyedCt i.ihdr.ct i.ihdr.depth t },
+          (chunksExact i.bppBytes i.data).flatMap fun px =>
+            if (px.drop (i.bppBytes - bdOf i.ihdr.depth)).all (· = 0) then List.replicate (i.bppBytes - bdOf i.ihdr.depth) t
+            else px.take (i.bppBytes - bdOf i.ihdr.depth)⟩ ∧
+      ∀ px ∈ chunksExact i.bppBytes i.data, (px.drop (i.bppBytes - bdOf i.ihdr.depth)).all (· = 0) = false →
+        (px.take (i.bppBytes - bdOf i.ihdr.depth)).all (· = px.getD 0 0) = true → px.getD 0 0 ≠ t)) := by
+  unfold reducedAlphaChannel at h
+  simp only [] at h
+  have hbd : i.bytesPerChannel = bdOf i.ihdr.depth := rfl
+  have hbpp : i.channelsPerPixel * i.bytesPerChannel = i.bppBytes := Nat.mul_comm _ _
+  rw [hbpp, hbd] at h
+  have facts := alphaScan_ok (i.bppBytes - bdOf i.ihdr.depth) (chunksExact i.bppBytes i.data) (true, false, [])
+  unfold alphaScanStep at facts
+  generalize List.foldl _ (true, false, []) (chunksExact i.bppBytes i.data) = scan at h facts
+  cases ha : i.ihdr.ct.hasAlpha
+  case false => simp [ha] at h
+  case true =>
+    simp only [ha, Bool.not_true, Bool.false_eq_true, if_false] at h
+    cases hs : scan.1
+    case false => simp [hs] at h
+    case true =>
+      simp only [hs, Bool.not_true, Bool.false_eq_true, if_false] at h
+      obtain ⟨_, f2, f3, _, f5⟩ := facts hs
+      refine ⟨rfl, f2, ?_⟩
+      cases ht : scan.2.1
+      case false =>
+        simp only [ht, Bool.false_eq_true, if_false, Option.some.injEq] at h
+        left
+        refine ⟨?_, (f3 ht).2⟩
+        subst h
+        cases hc : i.ihdr.ct <;> simp [hc, ColorType.hasAlpha] at ha <;> simp [noAlphaCt]
+      case true =>
+        simp only [ht, if_true] at h
+        right
+        -- the key is a value that no opaque gray pixel uses
+        generalize hsel : ((match i.ihdr.ct with
+            | ColorType.grayAlpha => List.find? (fun v => !scan.2.2.contains v) [0, 255, 85, 170]
+            | _ => none).or (List.find? (fun v => !scan.2.2.contains v) (List.map UInt8.ofNat (List.range 256)))) = sel at h
+        cases sel with
+        | none => simp at h
+        | some t =>
+          simp only [Option.some.injEq] at h
+          have hunused : scan.2.2.contains t = false := by
+            have hp : ∀ (l : List UInt8), List.find? (fun v => !scan.2.2.contains v) l = some t → scan.2.2.contains t = false := by
+              intro l hl
+              have := List.find?_some hl
+              simpa using this
+            cases hc : i.ihdr.ct <;> rw [hc] at hsel <;> simp only [Option.or] at hsel
+            all_goals first
+              | exact hp _ hsel
+              | (split at hsel
+                 · rename_i heq; cases hsel; exact hp _ heq
+                 · exact hp _ hsel)
+          refine ⟨t, ?_, ?_⟩
+          · subst h
+            cases hc : i.ihdr.ct <;> simp [hc, ColorType.hasAlpha] at ha <;> simp [keyedCt, hc]
+          · intro px hpx hnt hgray heq
+            have := f5 px hpx hnt hgray
+            rw [heq] at this
+            have : scan.2.2.contains t = true := by simpa using this
+            rw [hunused] at this
+            cases this
+
+theorem all_255 (l : Bytes) (h : (l.any fun x => decide (x ≠ 255)) = false) : ∀ x ∈ l, x = 255 := by
+  intro x hx
+  have := List.any_eq_false.mp h x hx
+  simpa using this
+
+/-- an opaque pixel keeps its meaning when the alpha channel is replaced by a key it does not match -/
+theorem keyed_opaque_px (ct : ColorType) (d : Nat) (px : Bytes) (t : UInt8) (ha : ct.hasAlpha = true)
+    (hd : d = 8 ∨ d = 16) (hlen : px.length = bdOf d * ct.channels)
+    (hop : ((px.drop (bdOf d * ct.channels - bdOf d)).any fun x => decide (x ≠ 255)) = false)
+    (hkey : (px.take (bdOf d * ct.channels - bdOf d)).all (· = px.getD 0 0) = true → px.getD 0 0 ≠ t) :
+    colourOf (keyedCt ct d t) d (samplesOf d (px.take (bdOf d * ct.channels - bdOf d))) =
+      colourOf ct d (samplesOf d px) := by
+  have hall := all_255 _ hop
+  have ht := t.toNat_lt
+  rcases hd with rfl | rfl
+  · have hb : bdOf 8 = 1 := rfl
+    rw [hb] at hlen hall hkey ⊢
+    cases ct with
+    | grayAlpha =>
+      obtain ⟨g, a, rfl⟩ := length_two px (by simpa [ColorType.channels] using hlen)
+      have : a = 255 := hall a (by simp [ColorType.channels])
+      subst this
+      have hne : g ≠ t := by simpa [ColorType.channels] using hkey
+      have hne' : ¬ (t.toNat = g.toNat) := fun h => hne (UInt8.toNat_inj.mp h.symm)
+      simp [samplesOf, keyedCt, ColorType.channels, colourOf, keyComponent, Nat.mod_eq_of_lt ht, hne', scaleTo16]
+    | rgba =>
+      obtain ⟨r, g, b, a, rfl⟩ := length_four px (by simpa [ColorType.channels] using hlen)
+      have : a = 255 := hall a (by simp [ColorType.channels])
+      subst this
+      have hne : ¬ (t.toNat = r.toNat ∧ t.toNat = g.toNat ∧ t.toNat = b.toNat) := by
+        rintro ⟨h1, h2, h3⟩
+        have e1 : r = t := UInt8.toNat_inj.mp h1.symm
+        have e2 : g = t := UInt8.toNat_inj.mp h2.symm
+        have e3 : b = t := UInt8.toNat_inj.mp h3.symm
+        subst e1 e2 e3
+        simp [ColorType.channels] at hkey
+      simp [samplesOf, keyedCt, ColorType.channels, colourOf, keyComponent, Nat.mod_eq_of_lt ht, hne, scaleTo16]
+    | gray t' => simp [ColorType.hasAlpha] at ha
+    | rgb t' => simp [ColorType.hasAlpha] at ha
+    | indexed p => simp [ColorType.hasAlpha] at ha
+  · have hb : bdOf 16 = 2 := rfl
+    rw [hb] at hlen hall hkey ⊢
+    have ht16 : t.toNat * 256 + t.toNat < 2 ^ 16 := by omega
+    cases ct with
+    | grayAlpha =>
+      obtain ⟨g1, g2, a1, a2, rfl⟩ := length_four px (by simpa [ColorType.channels] using hlen)
+      have e1 : a1 = 255 := hall a1 (by simp [ColorType.channels])
+      have e2 : a2 = 255 := hall a2 (by simp [ColorType.channels])
+      subst e1 e2
+      have h1 := g1.toNat_lt
+      have h2 := g2.toNat_lt
+      have hne : ¬ (t.toNat * 256 + t.toNat = g1.toNat * 256 + g2.toNat) := by
+        intro h
+        have e1 : g1 = t := UInt8.toNat_inj.mp (by omega)
+        have e2 : g2 = t := UInt8.toNat_inj.mp (by omega)
+        subst e1 e2
+        simp [ColorType.channels] at hkey
+      simp [samplesOf, pairs16, keyedCt, ColorType.channels, colourOf, keyComponent, Nat.mod_eq_of_lt ht16, hne, scaleTo16]
+    | rgba =>
+      obtain ⟨r1, r2, g1, g2, b1, b2, a1, a2, rfl⟩ := length_eight px (by simpa [ColorType.channels] using hlen)
+      have e1 : a1 = 255 := hall a1 (by simp [ColorType.channels])
+      have e2 : a2 = 255 := hall a2 (by simp [ColorType.channels])
+      subst e1 e2
+      have := r1.toNat_lt; have := r2.toNat_lt; have := g1.toNat_lt; have := g2.toNat_lt
+      have := b1.toNat_lt; have := b2.toNat_lt
+      have hne : ¬ (t.toNat * 256 + t.toNat = r1.toNat * 256 + r2.toNat ∧
+          t.toNat * 256 + t.toNat = g1.toNat * 256 + g2.toNat ∧ t.toNat * 256 + t.toNat = b1.toNat * 256 + b2.toNat) := by
+        rintro ⟨h1, h2, h3⟩
+        have e1 : r1 = t := UInt8.toNat_inj.mp (by omega)
+        have e2 : r2 = t := UInt8.toNat_inj.mp (by omega)
+        have e3 : g1 = t := UInt8.toNat_inj.mp (by omega)
+        have e4 : g2 = t := UInt8.toNat_inj.mp (by omega)
+        have e5 : b1 = t := UInt8.toNat_inj.mp (by omega)
+        have e6 : b2 = t := UInt8.toNat_inj.mp (by omega)
+        subst e1 e2 e3 e4 e5 e6
+        simp [ColorType.channels] at hkey
+      simp [samplesOf, pairs16, keyedCt, ColorType.channels, colourOf, keyComponent, Nat.mod_eq_of_lt ht16, hne, scaleTo16]
+    | gray t' => simp [ColorType.hasAlpha] at ha
+    | rgb t' => simp [ColorType.hasAlpha] at ha
+    | indexed p => simp [ColorType.hasAlpha] at ha
+
+/-- a fully transparent pixel replaced by the key colour is fully transparent -/
+theorem keyed_transparent_px (ct : ColorType) (d : Nat) (t : UInt8) (ha : ct.hasAlpha = true) (hd : d = 8 ∨ d = 16) :
+    (colourOf (keyedCt ct d t) d (samplesOf d (List.replicate (bdOf d * ct.channels - bdOf d) t))).a = 0 := by
+  have ht := t.toNat_lt
+  rcases hd with rfl | rfl
+  · cases ct with
+    | grayAlpha => simp [keyedCt, bdOf, ColorType.channels, samplesOf, colourOf, keyComponent, Nat.mod_eq_of_lt ht, List.replicate]
+    | rgba => simp [keyedCt, bdOf, ColorType.channels, samplesOf, colourOf, keyComponent, Nat.mod_eq_of_lt ht, List.replicate]
+    | gray t' => simp [ColorType.hasAlpha] at ha
+    | rgb t' => simp [ColorType.hasAlpha] at ha
+    | indexed p => simp [ColorType.hasAlpha] at ha
+  · have ht16 : t.toNat * 256 + t.toNat < 65536 := by omega
+    cases ct with
+    | grayAlpha => simp [keyedCt, bdOf, ColorType.channels, samplesOf, pairs16, colourOf, keyComponent, Nat.mod_eq_of_lt ht16, List.replicate]
+    | rgba => simp [keyedCt, bdOf, ColorType.channels, samplesOf, pairs16, colourOf, keyComponent, Nat.mod_eq_of_lt ht16, List.replicate]
+    | gray t' => simp [ColorType.hasAlpha] at ha
+    | rgb t' => simp [ColorType.hasAlpha] at ha
+    | indexed p => simp [ColorType.hasAlpha] at ha
+
+/-- **Replacing the alpha channel by a colour key under alpha optimisation changes only invisible
+    colour, for the whole image**: fully transparent pixels become the key colour (still fully
+    transparent), opaque pixels keep colour and stay opaque because the key is a value no opaque gray
+    pixel uses; an image with any other alpha value is refused. -/
+theorem reduced_alpha_visible (i j : Img) (n : Nat)
+    (hlen : i.data.length = n * i.bppBytes) (hd : i.ihdr.depth = 8 ∨ i.ihdr.depth = 16)
+    (h : reducedAlphaChannel i true = some j) : sameVisiblePicture i j := by
+  obtain ⟨ha, hcls, hcase⟩ := reducedAlpha_true_char i j h
+  have hbpos : 0 < bdOf i.ihdr.depth := by unfold bdOf; split <;> decide
+  have hbb : i.bppBytes = bdOf i.ihdr.depth * i.ihdr.ct.channels := rfl
+  have hch : 2 ≤ i.ihdr.ct.channels := by
+    cases hc : i.ihdr.ct <;> simp [hc, ColorType.hasAlpha] at ha <;> simp [ColorType.channels]
+  have hbppos : 0 < i.bppBytes := by rw [hbb]; exact Nat.mul_pos hbpos (by omega)
+  obtain ⟨_, hpxlen⟩ := flatten_chunksExact i.bppBytes hbppos n i.data hlen
+  rcases hcase with ⟨rfl, hnot⟩ | ⟨t, rfl, hkey⟩
+  · -- no transparent pixel: the plain opaque drop
+    have hop : ∀ px ∈ chunksExact i.bppBytes i.data,
+        ((px.drop (i.bppBytes - bdOf i.ihdr.depth)).any fun x => decide (x ≠ 255)) = false := by
+      intro px hpx
+      rcases hcls px hpx with h1 | h1
+      · rw [hnot px hpx] at h1; cases h1
+      · exact h1
+    have hch' : (noAlphaCt i.ihdr.ct).channels = i.ihdr.ct.channels - 1 := by
+      cases hc : i.ihdr.ct <;> simp [hc, ColorType.hasAlpha] at ha <;> simp [noAlphaCt, ColorType.channels]
+    have hj : chunksExact (bdOf i.ihdr.depth * (noAlphaCt i.ihdr.ct).channels)
+        ((chunksExact i.bppBytes i.data).flatMap (·.take (i.bppBytes - bdOf i.ihdr.depth))) =
+        (chunksExact i.bppBytes i.data).map (·.take (i.bppBytes - bdOf i.ihdr.depth)) := by
+      apply chunks_flatMap
+      · exact Nat.mul_pos hbpos (by rw [hch']; omega)
+      · intro px hpx
+        rw [List.length_take, hpxlen px hpx, hbb, hch', Nat.mul_sub, Nat.mul_one]
+        exact Nat.min_eq_left (Nat.sub_le _ _)
+    apply samePicture_visible
+    refine ⟨rfl, rfl, rfl, ?_⟩
+    simp only [pixelColours, storagePixels]
+    have hjb : (⟨{ i.ihdr with ct := noAlphaCt i.ihdr.ct },
+        (chunksExact i.bppBytes i.data).flatMap (·.take (i.bppBytes - bdOf i.ihdr.depth))⟩ : Img).bppBytes =
+        bdOf i.ihdr.depth * (noAlphaCt i.ihdr.ct).channels := rfl
+    rw [hjb, hj, List.map_map]
+    apply List.map_congr_left
+    intro px hpx
+    simp only [Function.comp]
+    have := C01.drop_alpha_px i.ihdr.ct i.ihdr.depth px ha hd (by rw [hpxlen px hpx, hbb]) (by
+      rw [← hbb]; exact hop px hpx)
+    rw [← hbb] at this
+    exact this
+  · -- a key was chosen
+    have hch' : (keyedCt i.ihdr.ct i.ihdr.depth t).channels = i.ihdr.ct.channels - 1 := by
+      cases hc : i.ihdr.ct <;> simp [hc, ColorType.hasAlpha] at ha <;> simp [keyedCt, ColorType.channels]
+    let f : Bytes → Bytes := fun px =>
+      if (px.drop (i.bppBytes - bdOf i.ihdr.depth)).all (· = 0) then List.replicate (i.bppBytes - bdOf i.ihdr.depth) t
+      else px.take (i.bppBytes - bdOf i.ihdr.depth)
+    have hj : chunksExact (bdOf i.ihdr.depth * (keyedCt i.ihdr.ct i.ihdr.depth t).channels)
+        ((chunksExact i.bppBytes i.data).flatMap f) = (chunksExact i.bppBytes i.data).map f := by
+      apply chunks_flatMap
+      · exact Nat.mul_pos hbpos (by rw [hch']; omega)
+      · intro px hpx
+        simp only [f]
+        split
+        · rw [List.length_replicate, hbb, hch', Nat.mul_sub, Nat.mul_one]
+        · rw [List.length_take, hpxlen px hpx, hbb, hch', Nat.mul_sub, Nat.mul_one]
+          exact Nat.min_eq_left (Nat.sub_le _ _)
+    have hjb : (⟨{ i.ihdr with ct := keyedCt i.ihdr.ct i.ihdr.depth t }, (chunksExact i.bppBytes i.data).flatMap f⟩ : Img).bppBytes =
+        bdOf i.ihdr.depth * (keyedCt i.ihdr.ct i.ihdr.depth t).channels := rfl
+    refine ⟨rfl, rfl, rfl, ?_, ?_⟩
+    · simp only [pixelColours, storagePixels, List.length_map]
+      rw [hjb, hj, List.length_map]
+    · intro p hp
+      simp only [pixelColours, storagePixels] at hp
+      rw [hjb, hj, List.map_map, List.zip_map', List.mem_map] at hp
+      obtain ⟨px, hpx, rfl⟩ := hp
+      simp only [Function.comp, f]
+      have hl := hpxlen px hpx
+      cases htr : (px.drop (i.bppBytes - bdOf i.ihdr.depth)).all (· = 0)
+      · simp only [Bool.false_eq_true, if_false]
+        have hop : ((px.drop (i.bppBytes - bdOf i.ihdr.depth)).any fun x => decide (x ≠ 255)) = false := by
+          rcases hcls px hpx with h1 | h1
+          · rw [htr] at h1; cases h1
+          · exact h1
+        have := keyed_opaque_px i.ihdr.ct i.ihdr.depth px t ha hd (by rw [hl, hbb]) (by rw [← hbb]; exact hop)
+          (by rw [← hbb]; exact hkey px hpx htr)
+        rw [← hbb] at this
+        rw [this]; exact alphaEq_refl _
+      · simp only [if_true]
+        have a1 := transparent_px_alpha i.ihdr.ct i.ihdr.depth px ha hd (by rw [hl, hbb]) (by rw [← hbb]; exact htr)
+        have a2 := keyed_transparent_px i.ihdr.ct i.ihdr.depth t ha hd
+        rw [← hbb] at a2
+        exact ⟨by rw [a1, a2], fun hne => absurd a1 hne⟩
+
+example : reducedAlphaChannel ⟨⟨2, 1, .grayAlpha, 8, false⟩, [9, 0, 0, 255]⟩ true =
+    some ⟨⟨2, 1, .gray (some 255), 8, false⟩, [255, 0]⟩ := by decide
+
 /-- Non-vacuity: a Sub rewrite of a transparent pixel between two opaque ones. -/
 example : optimizeAlphaPixels 1 3 [[1,2,3,255], [9,9,9,0], [4,5,6,255]] [[0,0,0,0],[0,0,0,0],[0,0,0,0]]
     = [[1,2,3,255], [1,2,3,0], [4,5,6,255]] := by decide
